@@ -7,6 +7,7 @@ import (
 	"go/types"
 	"sort"
 	"strings"
+	"sync"
 	"text/template/parse"
 
 	"verif/checker/core"
@@ -344,15 +345,7 @@ func c01qualifiers(c *core.Check) {
 	c.Min("qualifier-is-import-alias", 3)
 }
 
-type sync2 struct{ mu chan struct{} }
-
-func (s *sync2) Lock() {
-	if s.mu == nil {
-		s.mu = make(chan struct{}, 1)
-	}
-	s.mu <- struct{}{}
-}
-func (s *sync2) Unlock() { <-s.mu }
+type sync2 = sync.Mutex
 
 // stdLibs reads the names registered in importManager.init's std literal.
 func stdLibs(c *core.Check) map[string]bool {
